@@ -1491,8 +1491,10 @@ impl SourceLocation for RedirectList {
 
 impl Display for RedirectList {
     fn fmt(&self, f: &mut std::fmt::Formatter<'_>) -> std::fmt::Result {
+        // The list follows the closing keyword of a compound command: every redirection is set
+        // off by a blank, so that neither `done>` nor `/dev/null2>&` can arise.
         for item in &self.0 {
-            write!(f, "{item}")?;
+            write!(f, " {item}")?;
         }
         Ok(())
     }
